@@ -47,6 +47,11 @@
    always the last designator and is followed by a scalar for a scalar
    element, a string for a character array element, or a braced list.
 
+   The object value is a function of (type, initializer) alone: it does not depend on
+   the storage class, nor on the machine state in which the definition is reached.
+   The harness therefore reaches every automatic definition on a poisoned stack and
+   with all caller-saved registers holding non-zero patterns.
+
    Every completed behaviour (the outermost list closed) is written out with
    Emit as one test vector: type, tokens, value map.  harness/c05.py turns it
    into `static T s = I;` and `T a = I;` and compares both object values.
@@ -88,6 +93,11 @@ TT == [
   \* arrays
   i2 |-> Arr(2, "int"), i3 |-> Arr(3, "int"), i0 |-> Arr(0, "int"), i22 |-> Arr(2, "i2"), i02 |-> Arr(0, "i2"),
   l3 |-> Arr(3, "long"), p2 |-> Arr(2, "ptr"), d2 |-> Arr(2, "double"),
+  \* objects of 32, 36, 40, 56 and 100 bytes, mostly left to the implicit zero (block zero-fill paths)
+  i8 |-> Arr(8, "int"), i33 |-> Arr(3, "i3"), c100 |-> Arr(100, "char"),
+  l4 |-> Arr(4, "long"), l5 |-> Arr(5, "long"), c12 |-> Arr(12, "char"),
+  s56 |-> St(<<M("tag", "int"), M("v", "l4"), M("name", "c12")>>),
+  u40 |-> Un(<<M("c", "char"), M("w", "l5")>>),
   \* character arrays
   c4 |-> Arr(4, "char"), c0 |-> Arr(0, "char"), c3 |-> Arr(3, "char"), uc4 |-> Arr(4, "uchar"),
   h4 |-> Arr(4, "c16"), h0 |-> Arr(0, "c16"), U4 |-> Arr(4, "c32"), w4 |-> Arr(4, "wchar"), w0 |-> Arr(0, "wchar"),
@@ -125,7 +135,7 @@ TT == [
 
 K(t)      == TT[t].k
 IsAgg(t)  == K(t) # "sc"
-Big       == 99
+Big       == 999
 NKids(t)  == IF K(t) = "arr" THEN (IF TT[t].n = 0 THEN Big ELSE TT[t].n) ELSE Len(TT[t].ms)
 KidT(t, i) == IF K(t) = "arr" THEN TT[t].e ELSE TT[t].ms[i].t
 (* p9: unnamed bit-fields do not take part in initialisation *)
@@ -147,7 +157,7 @@ LitPrefixes(c) == CASE c = "char" -> {""} [] c = "uchar" -> {"u8"} [] c = "c16" 
 (* the i-th code unit of the literal of length l: a b c d; the wide ones have U+03B2 second *)
 Unit(pre, i) == IF i = 2 /\ pre \in {"u", "U", "L"} THEN 946 ELSE 96 + i
 (* lengths tried for an array of n elements: shorter (zero fill), exactly with the NUL, NUL dropped; "" where n <= 3 *)
-StrLens(n) == IF n = 0 THEN {0, 2} ELSE IF n <= 3 THEN {0, n - 1, n} ELSE {2, n - 1, n}
+StrLens(n) == IF n = 0 THEN {0, 2} ELSE IF n <= 3 THEN {0, n - 1, n} ELSE IF n = 4 THEN {2, 3, 4} ELSE {2, 3}
 
 RECURSIVE TypeAt(_, _)
 TypeAt(t, q) == IF q = <<>> THEN t ELSE TypeAt(KidT(t, q[1]), Tail(q))
